@@ -108,6 +108,36 @@ impl<'a> Ctx<'a> {
     fn sel_set(&mut self, parent: Named, sel: &[Selection], at: &str, depth: usize) {
         let schema = self.schema;
         let doc = self.doc;
+        // domain rule (c): in the struct(s) generated for this selection set, the member a fragment
+        // spread adds (named after the fragment) must not coincide with the member of a field or of
+        // another fragment (`fragment Do` next to a field `do`: both are `do_`). Inline fragments of
+        // this level are merged into one scope - an over-approximation that only rejects more.
+        {
+            fn image(name: &str) -> String {
+                let s = heck::ToSnakeCase::to_snake_case(name);
+                if super::names::RUST_KEYWORDS.contains(&s.as_str()) {
+                    format!("{}_", s)
+                } else {
+                    s
+                }
+            }
+            fn collect(sel: &[Selection], fields: &mut Vec<String>, spreads: &mut Vec<(String, String)>) {
+                for s in sel {
+                    match s {
+                        Selection::Field(f) => fields.push(image(f.key())),
+                        Selection::Spread(n) => spreads.push((n.clone(), image(n))),
+                        Selection::Inline { sel, .. } => collect(sel, fields, spreads),
+                        Selection::Typename => {}
+                    }
+                }
+            }
+            let (mut fields, mut spreads) = (Vec::new(), Vec::new());
+            collect(sel, &mut fields, &mut spreads);
+            let clash = spreads.iter().any(|(n, img)| fields.contains(img) || spreads.iter().any(|(m, img2)| m != n && img2 == img));
+            if clash {
+                self.push(Rule::DuplicateName, at, depth, parent);
+            }
+        }
         for s in sel {
             match s {
                 Selection::Typename => {}
